@@ -379,6 +379,9 @@ def from_scratch(ip, model, counting):
             d = ip.call(n_.f["_distribution"], args, kw)
             lp = ip.call(d.attrs["log_prob"], [vals[id(n_.f["_at"])]], {})
             vals[id(n_)] = lp if n_.f["_per_obs"] or not (is_z3(lp) and lp.sort() == U) else TOTAL(lp)
+        elif cn == "InputGroup":
+            ag = ip.repo(f"{N}::ArgGroup")
+            vals[id(n_)] = ip.call(ag, [[vals[id(i)] for i in n_.f["_inputs"]], {k: vals[id(i)] for k, i in n_.f["_kwinputs"].items()}], {})
         elif cn == "NoDist":
             vals[id(n_)] = 0.0
         else:
